@@ -36,6 +36,7 @@ class P(DockProp):
         pipe = []
         if rng.random() < 0.4:
             pipe = [g.line_filter(words=["error", "info", "GET", "n=", ":"])]
+
         q = g.query_text(sel, pipe, "spaced")
         opts = {cid: [str(start // S), str(end // S)] for cid in exp}
         evals.append({"q": b64e(q), "qcoq": "DQLog (%s) 0" % g.query_coq(sel, pipe), "limit": 0, "start": start, "end": end, "step": 0, "release": list(range(nc)),
